@@ -2,7 +2,8 @@
    The history is unbounded: any sequence of encap calls (successful or failed), resets and configuration
    changes. `pstep` is the abstract effect of one call on the policy state; c15_link ties it to the model's encap. *)
 Require Import GSE.model.Base GSE.model.Types GSE.model.Ext GSE.model.Encap
-  GSE.proofs.Tactics GSE.proofs.EncapSpec GSE.proofs.EncapProps GSE.proofs.Policy.
+  GSE.proofs.Tactics GSE.proofs.BaseLemmas GSE.proofs.HeaderLemmas GSE.proofs.EncapSpec GSE.proofs.EncapProps GSE.proofs.Policy
+  GSE.proofs.ExtSpec GSE.proofs.ExtTrip GSE.proofs.ExtProps.
 Open Scope N_scope.
 
 (* encap moves the policy state exactly as pstep says, and the label type written on the wire is that of the
@@ -19,6 +20,27 @@ Proof.
   - destruct L as (-> & k & glen & rest & -> & _). destruct (check_reuse_hl s lab); cbn [fst snd].
     split; [reflexivity|]. intros ? _. eauto.
   - destruct L as [-> _]. split; [reflexivity|discriminate].
+Qed.
+
+(* the same for encap_ext: it moves the policy state as pstep says (nothing on an error), and writes the label type pstep chose *)
+Theorem c15_link_ext : forall crc s pdu fid pt lab buf exts s' b' r, enc_wf s -> label_wf lab -> Forall ext_built exts ->
+  encap_ext crc s pdu fid pt lab buf exts = Ret (s', b', r) ->
+  s' = fst (pstep s (PEncap lab (match r with inl _ => true | inr _ => false end))) /\
+  (forall st, r = inl st -> exists k glen rest,
+     b' = be16 (hdr_arith k (label_type (snd (check_reuse_hl s lab))) glen) ++ rest).
+Proof.
+  intros crc s pdu fid pt lab buf exts s' b' r Hs Hw Hx H.
+  assert (Hxw : Forall ext_wf exts) by (revert Hx; apply Forall_impl; exact ext_built_wf).
+  rewrite encap_ext_spec in H by assumption. injection H as H.
+  destruct r as [st|e]; cbn [pstep].
+  - destruct st as [n|n c].
+    + destruct (encap_ext_completed crc _ _ _ _ _ _ _ _ _ _ Hw H) as (_ & _ & HS' & Hb' & _).
+      destruct (check_reuse_hl s lab) as [s1 l]; cbn [fst snd] in *. split; [exact HS'|]. intros ? _.
+      rewrite Hb'. with_strategy transparent [pkt_complete_x] unfold pkt_complete_x. rewrite <- !app_assoc. eauto.
+    + destruct (encap_ext_fragmented crc _ _ _ _ _ _ _ _ _ _ _ Hw H) as (_ & _ & HS' & Hb' & _).
+      destruct (check_reuse_hl s lab) as [s1 l]; cbn [fst snd] in *. split; [exact HS'|]. intros ? _.
+      rewrite Hb'. with_strategy transparent [pkt_first_x] unfold pkt_first_x. rewrite <- !app_assoc. eauto.
+  - apply encap_ext_hl_err in H as [-> _]. split; [reflexivity|discriminate].
 Qed.
 
 (* the invariant holds after every history from a new encapsulator *)
@@ -54,6 +76,7 @@ Example c15_nonvacuous :
 Proof. vm_compute. reflexivity. Qed.
 
 Print Assumptions c15_link.
+Print Assumptions c15_link_ext.
 Print Assumptions c15_invariant.
 Print Assumptions c15_disabled.
 Print Assumptions c15_sub_only_same.
